@@ -24,8 +24,8 @@ func init() {
 	targets = append(targets, Target{
 		Func: "fragmentingReader.recvAndParseNextFragment", Out: "c02ReaderTypeCk", File: "GenC02TypeCk", Soft: true,
 		Params: "(recv_err : Z) (has_ck : bool) (ck_type ftype : Z)", Ret: "Z * Z",
-		Stmt:   "r.curFragment, r.err = r.receiver.recvNextFragment(initial)", After: true, Until: "r.hasMoreFragments = ",
-		Pre:    "let newed := (-1) in", Rest: "(newed, 0)", RetFmt: "(newed, %s)", KeepRets: true,
+		Stmt: "r.curFragment, r.err = r.receiver.recvNextFragment(initial)", After: true, Until: "r.hasMoreFragments = ",
+		Pre: "let newed := (-1) in", Rest: "(newed, 0)", RetFmt: "(newed, %s)", KeepRets: true,
 		Hints: map[string]string{
 			"r.err != nil":                "(negb (recv_err =? 0))",
 			"r.err":                       "recv_err",
